@@ -3,6 +3,7 @@ import BqVerif.Proofs.CircTimeline2
 import BqVerif.Proofs.CircHistory
 import BqVerif.Proofs.Trace
 import BqVerif.Proofs.CircRel
+import BqVerif.Proofs.CircWhole
 /-! # C04 — Circuit editing calls have their documented effect on program order -/
 namespace BqVerif.C04
 open BqVerif.Circ
@@ -79,6 +80,24 @@ example :
     let c : Circ := ⟨[2, 2], [[⟨1, [], [0], [2]⟩], [⟨6, [], [0, 1], [2, 2]⟩]]⟩
     let c' : Circ := ⟨[2, 2], [[⟨1000, [], [0, 1], [2, 2]⟩]]⟩
     validFold b c [(0, (0, 1)), (1, (1, 1))] c' (0, 0) = none ∧ c.invB = true := by decide
+
+/-- **compress** never changes the unitary: it keeps `Inv`, every timeline, and therefore the
+ordered product in every semantics. -/
+theorem C04_compress_same_unitary {M : Type} [Monoid M] (sem : Op → M)
+    (hcomm : ∀ a b, Indep a b → sem a * sem b = sem b * sem a) (c : Circ) (hinv : c.Inv) :
+    c.compress.Inv ∧ (∀ q, c.compress.timeline q = c.timeline q) ∧
+      den sem c.compress.iter = den sem c.iter :=
+  ⟨compress_inv c hinv, compress_timeline c hinv, compress_same_unitary sem hcomm c hinv⟩
+
+/-- **inverse**: the original circuit followed by `get_inverse()` denotes the identity, in every
+group-valued semantics, for any gate-level inverse that keeps location and radixes and denotes the
+group inverse (that each library gate's `get_inverse` is such an inverse is C18's claim). -/
+theorem C04_inverse_composes_to_identity {G : Type} [Group G] (sem : Op → G)
+    (hcomm : ∀ a b, Indep a b → sem a * sem b = sem b * sem a)
+    (inv : Op → Op) (hloc : ∀ o, (inv o).loc = o.loc) (hrad : ∀ o, (inv o).rad = o.rad)
+    (hsem : ∀ o, sem (inv o) = (sem o)⁻¹) (c : Circ) (hinv : c.Inv) :
+    den sem c.iter * den sem (c.inverse inv).iter = 1 :=
+  inverse_composes_to_one sem hcomm inv hloc hrad hsem c hinv
 
 /-- every editing history keeps the representation well-formed, so "the unitary of the circuit" is
 well defined independently of the linearisation the iterator picks -/
